@@ -560,3 +560,112 @@ fn c02_stream_prefix_at_the_64k_boundary() {
     }
     kani::cover!(len == 65535, "message of exactly 65535 octets");
 }
+
+// @funcs: AdditionalBuilder::opt, OptBuilder::{new,build,set_udp_payload_size,set_version,set_dnssec_ok,set_rcode,push_raw_option}, OptHeader::{compose,set_*}, MessageBuilder::push
+// @bound: one OPT record built into an otherwise empty message on FixedBufM<48>: symbolic UDP payload size, EDNS version, DO bit, 12-bit extended rcode, and one raw option with symbolic code and 0..=3 symbolic data octets: the octets equal the RFC 6891 6.1.2 layout (root owner, type 41, class = payload size, TTL = ext-rcode/version/DO/zero, back-patched RDLENGTH, option TLV), the low rcode bits land in the message header, ARCOUNT = 1
+// @outside: several options, typed option composers, OPT records after other records
+#[kani::proof]
+#[kani::unwind(8)]
+fn c02_opt_record_layout() {
+    use domain::base::iana::{OptRcode, OptionCode};
+    let (udp, ver, dok, rc): (u16, u8, bool, u16) = (kani::any(), kani::any(), kani::any(), kani::any());
+    kani::assume(rc < 4096);
+    let (code, dlen): (u16, usize) = (kani::any(), kani::any());
+    kani::assume(dlen <= 3);
+    let data: [u8; 3] = kani::any();
+    let mut ad = MessageBuilder::from_target(FixedBufM::<48> { data: [0; 48], len: 0 }).unwrap().additional();
+    ad.opt(|o| {
+        o.set_udp_payload_size(udp);
+        o.set_version(ver);
+        o.set_dnssec_ok(dok);
+        o.set_rcode(OptRcode::masked_from_int(rc));
+        o.push_raw_option(OptionCode::from_int(code), dlen as u16, |t| t.append_slice(&data[..dlen]))
+    })
+    .unwrap();
+    assert!(ad.counts().arcount() == 1);
+    let m = ad.as_slice();
+    assert!(m.len() == 12 + 11 + 4 + dlen);
+    assert!(m[11] == 1 && m[10] == 0);
+    // header rcode = low four bits of the extended rcode
+    assert!(m[3] & 0x0F == (rc & 0x0F) as u8);
+    let r = &m[12..];
+    assert!(r[0] == 0); // root owner
+    assert!(r[1] == 0 && r[2] == 41); // TYPE OPT
+    assert!(r[3] == (udp >> 8) as u8 && r[4] == udp as u8); // CLASS = payload size
+    assert!(r[5] == (rc >> 4) as u8); // extended rcode (upper eight bits)
+    assert!(r[6] == ver);
+    assert!(r[7] == if dok { 0x80 } else { 0 } && r[8] == 0); // DO + Z
+    assert!((((r[9] as usize) << 8) | r[10] as usize) == 4 + dlen); // RDLENGTH back-patched
+    assert!(r[11] == (code >> 8) as u8 && r[12] == code as u8);
+    assert!(r[13] == 0 && r[14] as usize == dlen);
+    let i: usize = kani::any();
+    if i < dlen {
+        assert!(r[15 + i] == data[i]);
+    }
+    kani::cover!(dlen == 3 && dok, "option with data and DO set");
+}
+
+// @funcs: AnswerBuilder::push, AuthorityBuilder::push, Record::compose, Mx::compose_rdata / rdlen, compose_len_rdata, HeaderCounts::inc_ancount / inc_nscount
+// @bound: one MX record (owner ab.c and exchange ab.c with symbolic label octets; symbolic class, TTL, preference) pushed into the answer section of an otherwise empty message on a non-compressing FixedBufM<48>: octets = owner, type 15, class, TTL, RDLENGTH = 2 + name length, preference, exchange; exactly the section's own count becomes 1
+// @outside: other record types in this position (their RDATA layout is C05's subject)
+#[kani::proof]
+#[kani::unwind(10)]
+fn c02_single_record_push_layout_answer() {
+    single_record::<false>()
+}
+
+// @funcs: AuthorityBuilder::push, Record::compose, HeaderCounts::inc_nscount
+// @bound: as above, record pushed into the authority section
+#[kani::proof]
+#[kani::unwind(10)]
+fn c02_single_record_push_layout_authority() {
+    single_record::<true>()
+}
+
+fn single_record<const AUTH: bool>() {
+    use domain::rdata::Mx;
+    let c: [u8; 3] = kani::any();
+    let w = flat_abc(&c);
+    let n = Name::from_octets(&w[..]).unwrap();
+    let (cl, ttl, pref): (u16, u32, u16) = (kani::any(), kani::any(), kani::any());
+    let authority: bool = AUTH;
+    let mb = MessageBuilder::from_target(FixedBufM::<48> { data: [0; 48], len: 0 }).unwrap();
+    let rec = (n.clone(), Class::from_int(cl), Ttl::from_secs(ttl), Mx::new(pref, n.clone()));
+    let (counts, fin) = if authority {
+        let mut b = mb.authority();
+        b.push(rec).unwrap();
+        (b.counts(), b.finish())
+    } else {
+        let mut b = mb.answer();
+        b.push(rec).unwrap();
+        (b.counts(), b.finish())
+    };
+    assert!(counts.qdcount() == 0 && counts.arcount() == 0);
+    assert!(counts.ancount() == if authority { 0 } else { 1 });
+    assert!(counts.nscount() == if authority { 1 } else { 0 });
+    let m = fin.as_slice();
+    assert!(m.len() == 12 + 6 + 10 + 2 + 6);
+    let mut exp = [0u8; 36];
+    exp[if authority { 9 } else { 7 }] = 1;
+    let mut i = 0;
+    while i < 6 {
+        exp[12 + i] = w[i];
+        exp[30 + i] = w[i];
+        i += 1;
+    }
+    exp[18] = 0;
+    exp[19] = 15;
+    exp[20] = (cl >> 8) as u8;
+    exp[21] = cl as u8;
+    exp[22] = (ttl >> 24) as u8;
+    exp[23] = (ttl >> 16) as u8;
+    exp[24] = (ttl >> 8) as u8;
+    exp[25] = ttl as u8;
+    exp[26] = 0;
+    exp[27] = 8;
+    exp[28] = (pref >> 8) as u8;
+    exp[29] = pref as u8;
+    let idx: usize = kani::any();
+    kani::assume(idx < 36);
+    assert!(m[idx] == exp[idx]);
+}
